@@ -9,9 +9,9 @@ git -C $WT diff -- gaussian_toolbox > $OUT/patch.diff
 cp $WT/demo_seeded.py $OUT/demo_seeded.py
 cd $WT
 PYTHONPATH=$WT /venv/bin/python -W ignore demo_seeded.py > $OUT/demo_with.txt 2>&1; RC_WITH=$?
-git stash -q
+git checkout -q -- gaussian_toolbox
 PYTHONPATH=$WT /venv/bin/python -W ignore demo_seeded.py > $OUT/demo_without.txt 2>&1; RC_WITHOUT=$?
-git stash pop -q
+git apply $OUT/patch.diff
 if [ -n "$TESTS" ]; then
   PYTHONPATH=$WT timeout 1500 /venv/bin/python -m pytest -q -p no:cacheprovider -n 4 $TESTS > $OUT/tests_with.txt 2>&1; RC_TESTS=$?
 else RC_TESTS=-1; fi
